@@ -41,7 +41,10 @@ void case_impl(Ctx &c, bool resync, bool bursts = false) {
       r.f.push_back({o, by}); maps.push_back(m); r.total += by; if (o < 0) has_dummy = true;
     }
     if (r.f.size() >= 2) many_fields = true;
-    add_rpdo(w, p, r.id | (invalid ? 0x80000000u : 0), type, maps, 8);
+    // half of the unusable channels are not switched off by bit 31 but carry a 29-bit identifier (bit 29; decided from the transmission type, no tape choice):
+    // no 11-bit frame equals such a COB-ID - and the channels behind it in the table work all the same
+    bool ext = invalid && (type & 1); if (ext) c.cls("channel-with-a-29-bit-cob-id");
+    add_rpdo(w, p, r.id | (invalid ? (ext ? 0x20000000u : 0x80000000u) : 0), type, maps, 8);
   }
   // mode sync-id-rewritten: the node also has event-driven TPDOs without mapping on the four channels (they never transmit by themselves); a client
   // switches them off and on while the node runs - which is none of the RPDOs' business
